@@ -90,8 +90,8 @@ fn b_writes(gen: &mut Gen, wtype: &str) -> Vec<(Value, Argv)> {
     }
 }
 
-async fn case(run: usize, gen: &mut Gen, out: &mut Out) {
-    let shards = [1usize, 4][gen.rng.gen_range(0..2)];
+async fn case(run: usize, gen: &mut Gen, out: &mut Out, fixed_shards: usize, nowatch: bool) {
+    let shards = if fixed_shards > 0 { fixed_shards } else { [1usize, 4][gen.rng.gen_range(0..2)] };
     let state = ShardedActorState::with_config(ShardConfig::with_shards(shards));
     let mut a = Client::connect(&state);
     let mut bc = Client::connect(&state);
@@ -114,7 +114,7 @@ async fn case(run: usize, gen: &mut Gen, out: &mut Out) {
     if gen.rng.gen_bool(0.3) {
         step!("B", bc, set("x", ["1", "abc"][gen.rng.gen_range(0..2)]));
     }
-    let watch = gen.rng.gen_bool(0.7);
+    let watch = !nowatch && gen.rng.gen_bool(0.7);
     if watch {
         // one or several watched keys, in one WATCH or in two; B writes w, x and q
         let sets: [&[&str]; 7] = [&["w"], &["w"], &["w", "x"], &["x", "w"], &["q", "w"], &["w", "q", "x"], &["x"]];
@@ -141,7 +141,17 @@ async fn case(run: usize, gen: &mut Gen, out: &mut Out) {
     }
     let nbody = gen.rng.gen_range(0..=3);
     for _ in 0..nbody {
-        let ca = match gen.rng.gen_range(0..9) {
+        let ca = match gen.rng.gen_range(0..15) {
+            // multi-key and whole-keyspace commands: on several shards they fan out
+            9 => (json!({"op": "MSET", "ks": ["x", "q2", "w2"], "vs": [b("1"), b("2"), b("3")]}), vec![b("MSET"), b("x"), b("1"), b("q2"), b("2"), b("w2"), b("3")]),
+            10 => (json!({"op": "MGET", "ks": ["x", "w", "q2", "l"]}), vec![b("MGET"), b("x"), b("w"), b("q2"), b("l")]),
+            11 => (json!({"op": "DEL", "ks": ["x", "q2", "w2"]}), vec![b("DEL"), b("x"), b("q2"), b("w2")]),
+            12 => (json!({"op": "EXISTS", "ks": ["x", "w", "q2", "w2"]}), vec![b("EXISTS"), b("x"), b("w"), b("q2"), b("w2")]),
+            13 => (json!({"op": "FLUSHALL"}), vec![b("FLUSHALL")]),
+            14 => {
+                let kb: Vec<Value> = ["w", "x", "q", "l", "q2", "w2"].iter().map(|k| json!([k, k.as_bytes()])).collect();
+                (json!({"op": "KEYS", "pat": b("*"), "kb": kb}), vec![b("KEYS"), b("*")])
+            }
             0 => set("x", "1"),
             1 => (json!({"op": "INCRBY", "k": "x", "d": {"neg": false, "d": [1]}, "dmin": false}), vec![b("INCR"), b("x")]),
             2 => push("l", "a"),
@@ -171,12 +181,84 @@ async fn case(run: usize, gen: &mut Gen, out: &mut Out) {
     out.emit(&json!({"t": "txn", "run": run, "shards": shards, "wtype": wtype, "steps": steps, "s": s}));
 }
 
+/// The same rules on the executor's own MULTI / EXEC / WATCH (the path the simulator uses): one
+/// CommandExecutor; "B" writes are plain commands issued before MULTI (after it everything queues).
+fn case_executor(run: usize, gen: &mut Gen, out: &mut Out) {
+    use redis_sim::redis::CommandExecutor;
+    let mut ex = CommandExecutor::new();
+    ex.set_time(redis_sim::simulator::VirtualTime::from_millis(0));
+    let mut steps: Vec<Value> = Vec::new();
+    let mut go = |who: &str, ca: (Value, Argv), ex: &mut CommandExecutor, steps: &mut Vec<Value>| {
+        let (c, argv) = ca;
+        let r = match crate::ks::parse_argv(&argv) {
+            Ok(cmd) => ex.execute(&cmd),
+            Err(e) => RespValue::err(e),
+        };
+        steps.push(json!({"who": who, "c": c, "argv": argv.iter().map(|x| String::from_utf8_lossy(x).to_string()).collect::<Vec<_>>(), "r": rv_json(&r)}));
+    };
+    let wtype = ["none", "string", "list", "hash"][gen.rng.gen_range(0..4)];
+    match wtype {
+        "string" => go("B", set("w", "v0"), &mut ex, &mut steps),
+        "list" => go("B", push("w", "a"), &mut ex, &mut steps),
+        "hash" => go("B", hset("w", "f", "1"), &mut ex, &mut steps),
+        _ => {}
+    }
+    if gen.rng.gen_bool(0.3) {
+        go("B", set("x", "1"), &mut ex, &mut steps);
+    }
+    if gen.rng.gen_bool(0.8) {
+        let sets: [&[&str]; 5] = [&["w"], &["w", "x"], &["x", "w"], &["q", "w"], &["x"]];
+        let ks = sets[gen.rng.gen_range(0..sets.len())];
+        let mut argv = vec![b("WATCH")];
+        argv.extend(ks.iter().map(|k| b(k)));
+        go("A", (json!({"op": "WATCH", "ks": ks}), argv), &mut ex, &mut steps);
+        if gen.rng.gen_range(0..10) == 0 {
+            go("A", ctl("UNWATCH"), &mut ex, &mut steps);
+        }
+    }
+    for ca in b_writes(gen, wtype) {
+        go("B", ca, &mut ex, &mut steps);
+    }
+    go("A", ctl("MULTI"), &mut ex, &mut steps);
+    for _ in 0..gen.rng.gen_range(0..=3) {
+        let ca = match gen.rng.gen_range(0..6) {
+            0 => set("x", "1"),
+            1 => (json!({"op": "INCRBY", "k": "x", "d": {"neg": false, "d": [1]}, "dmin": false}), vec![b("INCR"), b("x")]),
+            2 => push("l", "a"),
+            3 => (json!({"op": "GET", "k": "x"}), vec![b("GET"), b("x")]),
+            4 => del("w"),
+            _ => (json!({"op": "GET", "k": "w"}), vec![b("GET"), b("w")]),
+        };
+        go("A", ca, &mut ex, &mut steps);
+    }
+    if gen.rng.gen_range(0..6) == 0 {
+        go("A", ctl("DISCARD"), &mut ex, &mut steps);
+    } else {
+        go("A", ctl("EXEC"), &mut ex, &mut steps);
+    }
+    go("A", (json!({"op": "GET", "k": "x"}), vec![b("GET"), b("x")]), &mut ex, &mut steps);
+    let s = crate::ks::project(&mut ex, 0);
+    out.emit(&json!({"t": "txn", "run": run, "shards": 0, "level": "executor", "wtype": wtype, "steps": steps, "s": s}));
+}
+
 pub fn main(a: &Args, rt: &tokio::runtime::Runtime, gen: &mut Gen, out: &mut Out) -> i32 {
+    if a.get("level") == Some("executor") {
+        for i in 0..a.usize("n", 200) {
+            let mut tmp = Out::create("/dev/null");
+            std::mem::swap(out, &mut tmp);
+            let mut o = tmp;
+            if let Err(p) = catch(|| case_executor(i + 1, gen, &mut o)) {
+                o.emit(&json!({"t": "txn", "run": i + 1, "panic": p, "steps": [], "s": []}));
+            }
+            std::mem::swap(out, &mut o);
+        }
+        return 0;
+    }
     for i in 0..a.usize("n", 200) {
         let mut tmp = Out::create("/dev/null");
         std::mem::swap(out, &mut tmp);
         let mut o = tmp;
-        let r = catch(|| rt.block_on(case(i + 1, gen, &mut o)));
+        let r = catch(|| rt.block_on(case(i + 1, gen, &mut o, a.usize("shards", 0), a.get("nowatch").is_some())));
         if let Err(p) = r {
             o.emit(&json!({"t": "txn", "run": i + 1, "panic": p, "steps": [], "s": []}));
         }
